@@ -530,8 +530,9 @@ def run(ctx):
     # every registered operation with a second consumer of its operands recorded after it: adjoints accumulate
     import ops, revchecks
     for name in revchecks.reversible_ops(for_truncation=False):
-        for k in range(2 if ctx.tier == 'quick' else 25):
-            case = ops.gen_case(rng, ctx.tier, name, P=rng.choice([1, 2]), D=rng.randint(1, 3))
+        mixed = name.endswith(':mixed')          # needs two directions (one degenerate, one regular): more cases, always P = 2
+        for k in range((6 if mixed else 2) if ctx.tier == 'quick' else 25):
+            case = ops.gen_case(rng, ctx.tier, name, P=2 if mixed else rng.choice([1, 2]), D=rng.randint(1, 3))
             case['seed'] = rng.randrange(1 << 30)
             case['superpos'] = True
             ctx.evaluations += 1
